@@ -16,7 +16,7 @@ class DaemonLayer:
     """client.c + device.c + device_tcp.c + device_pipe.c running the body of _select_loop  ↔  Pm.Daemon.daemonPass"""
     name = 'daemon-pass'
 
-    def __init__(self, predicates, profile=None, quick=(16, 1200), thorough=(96, 3000), deaths=None, compare=True, leaks=False):
+    def __init__(self, predicates, profile=None, quick=(16, 1200), thorough=(512, 3000), deaths=None, compare=True, leaks=False):
         self.leaks = leaks
         self.predicates = predicates; self.profile = profile or {}; self.quick = quick; self.thorough = thorough
         self.deaths = deaths  # None: a predicted death just ends the run; else function(death_class) -> sig or None
@@ -132,14 +132,14 @@ def D(*a, **k):
     return DaemonLayer(list(a), **k)
 
 
-PROPS['C01'] = dict(layers=[D(P.p_c01, profile=dict(faults=0.4))], planned=['C01_validated (alias expansion)', 'C01_history_free at daemon level'])
+PROPS['C01'] = dict(layers=[D(P.p_c01, P.p_c06_toolong, profile=dict(faults=0.4, longline=0.002))], planned=['C01_validated (alias expansion)', 'C01_history_free at daemon level'])
 PROPS['C02'] = dict(layers=[D(P.p_c02_c03, P.p_c02_retry, P.p_c02_wire, profile=dict(faults=0.5))], planned=['C02_sound end-to-end (102 ⇒ every target commanded and answered ok)', 'C02_cli'])
 PROPS['C03'] = dict(layers=[D(P.p_c02_c03, P.p_c03_justified, profile=dict(faults=0.5))], planned=['C03_justified over whole runs', 'C03_no_memory'])
 PROPS['C04'] = dict(layers=[D(P.p_c04, P.p_c04_quit, P.p_c04_deadline, P.p_c15)], planned=['C04_one_reply', 'C04_no_wedge', 'C04_tenure', 'C04_bound_partial'])
-PROPS['C06'] = dict(layers=[D(P.p_c04, P.p_c15, P.p_c06_served, P.p_f23, profile=dict(fatal=0.03, faults=1.5, maxclients=6), deaths=client_deaths), D(P.p_c04, P.p_c15, profile=dict(fatal=0.02, faults=0.1, quit=0.003, maxclients=3, calm=0.05), deaths=client_deaths, quick=(8, 2500), thorough=(32, 6000))], planned=['C06_total over lines >= CP_LINEMAX (203)', 'C06_reap'])
-PROPS['C07'] = dict(layers=[D(P.p_c20, profile=dict(garbage=0.08, pF6=0.03, calm=0.25), deaths=device_deaths)], planned=['C07_no_abort assembled over whole runs', 'xmatch_used under ExpectBeforeSet'])
+PROPS['C06'] = dict(layers=[D(P.p_c04, P.p_c15, P.p_c06_served, P.p_f23, profile=dict(fatal=0.03, faults=1.5, maxclients=6), deaths=client_deaths), D(P.p_c04, P.p_c15, P.p_c06_toolong, profile=dict(fatal=0.02, faults=0.1, quit=0.003, maxclients=3, calm=0.05, longline=0.003), deaths=client_deaths, quick=(8, 2500), thorough=(128, 6000))], planned=['C06_total over lines >= CP_LINEMAX (203)', 'C06_reap'])
+PROPS['C07'] = dict(layers=[D(P.p_c20, profile=dict(garbage=0.08, pF6=0.03, calm=0.25, flood=0.004), deaths=device_deaths)], planned=['C07_no_abort assembled over whole runs'])
 PROPS['C08'] = dict(layers=[D(P.p_c08, P.p_c01, profile=dict(faults=0.5))], planned=['composition of the refinement over postPoll sequences with reconnects'])
-PROPS['C09'] = dict(layers=[D(P.p_c09_write, P.p_c09_read, profile=dict(garbage=0.05))], planned=['cbuf_refines (index-level model of cbuf.c)', 'buffer capacity / overflow_drop'])
+PROPS['C09'] = dict(layers=[D(P.p_c09_write, P.p_c09_read, profile=dict(garbage=0.05, flood=0.004, longline=0.001))], planned=['cbuf_refines (index-level model of cbuf.c: ring positions)'])
 PROPS['C10'] = dict(layers=[D(P.p_c10)], planned=['C10_head_only', 'C10_transcript', 'C10_fifo'])
 PROPS['C12'] = dict(layers=[D(P.p_c12, P.p_c12_disconnect, P.p_c04, P.p_c02_c03, profile=dict(pF6=0.02, calm=0.3))], planned=['C12_ioerr', 'C12_recover_partial'])
 PROPS['C13'] = dict(layers=[config.ConfigLayer()], planned=['C13_listings at daemon level (nodes / device replies) — the replies themselves are mirrored in Pm.Daemon and compared on every run'])
@@ -178,7 +178,7 @@ class SteadyLayer:
     name = 'daemon-steady-state'
     TOL = 64
 
-    def __init__(self, quick=(16, 100), thorough=(64, 100)):
+    def __init__(self, quick=(16, 100), thorough=(128, 140)):
         self.quick = quick; self.thorough = thorough
 
     def build(self): daemon.build()
@@ -239,7 +239,7 @@ class PairedLayer:
     clients whose requests name only A's nodes must be identical, pass for pass.  Both runs are also compared with the model."""
     name = 'daemon-paired'
 
-    def __init__(self, quick=(16, 500), thorough=(96, 1200)):
+    def __init__(self, quick=(16, 500), thorough=(512, 1200)):
         self.quick = quick; self.thorough = thorough
 
     def build(self): daemon.build()
@@ -320,7 +320,7 @@ class MarkerLayer(DaemonLayer):
     """daemon pass on generated marker configurations (script-variant mixes, plug counts and unused plugs drawn per run)"""
     name = 'daemon-pass-generated-configs'
 
-    def __init__(self, pred_factories, generic=(), profile=None, quick=(16, 700), thorough=(96, 2000), deaths=None):
+    def __init__(self, pred_factories, generic=(), profile=None, quick=(16, 700), thorough=(512, 2000), deaths=None):
         DaemonLayer.__init__(self, list(generic), profile=profile, quick=quick, thorough=thorough, deaths=deaths)
         self.factories = pred_factories
 
